@@ -98,7 +98,9 @@ def correspond(ctx):
             variants.append((tag, run, o))
         if not hasQS and not nocone:
             o = {'show_progress': False}
-            variants.append(('qp', lambda: quiet(solvers.qp, P, c, G, h, A, b, options=o), o))
+            # per-call tolerances through the wrapper, tighter than the defaults half of the time (own stream): the answer is judged by what was asked
+            if rng_z.random() < 0.5: o.update(feastol=rng_z.choice([1e-8, 1e-9]), abstol=rng_z.choice([1e-9, 1e-10]), reltol=rng_z.choice([1e-9, 1e-10]))
+            variants.append(('qp', lambda o=o: quiet(solvers.qp, P, c, G, h, A, b, options=o), o))
         if not nocone and rng.random() < 0.4:
             # operator form of P, G, A with a callable KKT solver
             o = {'show_progress': False}
